@@ -25,7 +25,13 @@ def subst_expr(e, m):
         r = m.get(e.name)
         if r is None:
             return e
+        if isinstance(r, PlainAdd):
+            return Paren(r)          # an `expr` argument is substituted as ONE expression
         return V(r) if isinstance(r, str) else r
+    if isinstance(e, PlainAdd):
+        return PlainAdd(subst_expr(e.a, m), subst_expr(e.b, m))
+    if isinstance(e, Paren):
+        return Paren(subst_expr(e.e, m))
     if isinstance(e, K) or isinstance(e, Raw):
         return e
     if isinstance(e, Bin):
@@ -127,11 +133,25 @@ def subst_macro_arg(a, m):
     return subst_expr(a, m)
 
 
+def expr_binders(e, acc):
+    """identifiers bound INSIDE an expression (closure parameters, block lets, match arms): introduced by whoever wrote the expression"""
+    if isinstance(e, (ClosureApp, LetIn, MatchE)):
+        acc.add(e.var)
+    for name in ('a', 'b', 'e', 'cond', 'init', 'body', 'arg', 'scrut', 'e0', 'e1'):
+        sub = getattr(e, name, None)
+        if isinstance(sub, Expr):
+            expr_binders(sub, acc)
+    for sub in getattr(e, 'es', None) or []:
+        if isinstance(sub, Expr):
+            expr_binders(sub, acc)
+
+
 def item_idents(it, acc):
     """identifiers (variables) occurring in an item, excluding parameters"""
     def ev(e):
         for v in e.vars():
             acc.add(v)
+        expr_binders(e, acc)
     if isinstance(it, Clause):
         for a in it.args:
             if isinstance(a, AVar):
@@ -320,7 +340,14 @@ def gen_macro_program(rng, dom=4):
             ps = [p for p in used_params]
             return V('$' + rng.choice(ps)) if ps else K(rng.randrange(dom))
         for _ in range(rng.choice([0, 0, 1, 1, 2])):
-            kind = rng.choice(['pat', 'attached', 'let', 'iflet', 'if', 'for', 'agg'])
+            kind = rng.choice(['pat', 'attached', 'let', 'iflet', 'if', 'for', 'agg', 'paramexpr'])
+            if kind == 'paramexpr':
+                # an `expr` parameter inside a larger expression whose operator binds tighter than a `+` in the argument
+                eps = [p for p, k in params if k == 'expr' and p in used_params]
+                if eps:
+                    pe = V('$' + rng.choice(eps))
+                    body.append(If(Cmp(rng.choice(['<', '!=', '<=', '==', '>=']), Bin('*', pe, K(rng.randrange(2, 4)), dom + 3), K(rng.randrange(dom + 3)))))
+                continue
             if kind == 'pat':
                 l = fresh_local()
                 key = some_var()
@@ -345,7 +372,7 @@ def gen_macro_program(rng, dom=4):
                     body.append(LetTup([l, l2], [Bin('+', some_var(), K(rng.randrange(dom)), dom), some_var()]))
                     bound_locs.append(l2)
                 else:
-                    body.append(Let(l, Bin('+', some_var(), K(rng.randrange(dom)), dom)))
+                    body.append(Let(l, Bin(rng.choice(['+', '*']), some_var(), K(rng.randrange(1, dom)), dom)))
                 bound_locs.append(l)
             elif kind == 'iflet':
                 l = fresh_local()
@@ -353,7 +380,10 @@ def gen_macro_program(rng, dom=4):
                 body.append(IfLet(l, MkOpt(Cmp(rng.choice(['<', '!=', '>=']), v, K(rng.randrange(dom))), Bin('*', v, K(2), dom))))
                 bound_locs.append(l)
             elif kind == 'if':
-                body.append(If(Cmp(rng.choice(['<', '!=', '<=', '==']), some_var(), some_var())))
+                lhs = some_var()
+                if rng.random() < 0.5:
+                    lhs = Bin('*', lhs, K(rng.randrange(2, 4)), dom + 3)       # binds tighter than a `+` inside an argument
+                body.append(If(Cmp(rng.choice(['<', '!=', '<=', '==']), lhs, some_var())))
             elif kind == 'for':
                 l = fresh_local()
                 rg = Range(K(0), Bin('+', some_var(), K(1), 3)) if rng.random() < 0.5 else Range(K(0), some_var())      # `0..n`: an identifier right after `..`
@@ -392,6 +422,10 @@ def gen_macro_program(rng, dom=4):
                     args.append(rng.choice(cands))
                 if ok:
                     body.append(MacroCall(callee.name, args))
+        eps = [p for p, k in params if k == 'expr' and p in used_params]
+        if eps and rng.random() < 0.35:
+            pe = V('$' + rng.choice(eps))
+            body.append(If(Cmp(rng.choice(['<', '!=', '<=', '>=']), Bin('*', pe, K(rng.randrange(2, 4)), dom + 3), K(rng.randrange(1, dom + 2)))))
         def repeatable(it):
             # an item that may occur twice on one path: it binds nothing through let / if let / ?pattern / for / agg
             if isinstance(it, (Neg, If)):
@@ -434,6 +468,8 @@ def gen_macro_program(rng, dom=4):
                             if v not in bound:
                                 bound.append(v)
                         args.append(V(v))
+                    elif bound and rng.random() < 0.4:
+                        args.append(PlainAdd(V(rng.choice(bound)), K(rng.randrange(1, dom))))      # `a + 1`, no parentheses of its own
                     else:
                         args.append(int_expr(rng, bound, dom) if bound else K(rng.randrange(dom)))
                 body.append(MacroCall(md.name, args))
@@ -580,3 +616,19 @@ def gen_screened_input(rng, exp, input_rels, dom, kinds=('dense', 'directed', 'd
         return []
     finally:
         R.Budget.limit = old_limit
+
+
+def binder_capture_programs():
+    """hand-written: a binder inside an expression of a macro body (closure parameter, block let, match arm) carries the name of a
+    call-site variable that occurs in an `expr` argument. Hygiene: the binder belongs to the macro and must not capture the argument
+    (finding F25)."""
+    progs = []
+    bodies = [('closure', ClosureApp('t', PlainAdd(V('t'), V('$v')), K(1))),
+              ('block', LetIn('t', K(1), PlainAdd(V('t'), V('$v')))),
+              ('match', MatchE(K(1), 7, K(0), 't', PlainAdd(V('t'), V('$v'))))]
+    for name, e in bodies:
+        md = MacroDef('addk', [('v', 'expr'), ('o', 'ident')], body=[Let('$o', e)])
+        rels = [Rel('n', [T.I32]), Rel('r', [T.I32, T.I32])]
+        rules = [Rule([Head('r', [V('t'), V('o')])], [Clause('n', [AVar('t')]), MacroCall('addk', [V('t'), V('o')])])]
+        progs.append((name, Program(rels, rules, [md]), ['n']))
+    return progs
